@@ -32,7 +32,8 @@ func PathsBinary(args []string) {
 	}
 	defer srv.stop()
 	res := &Result{Extra: map[string]any{}}
-	roots := []string{"..", "../victim", "../../outer", "a/../../victim", "victim/../../victim", "./../victim", "..\\victim", "selection"}
+	roots := []string{"..", "../victim", "../../outer", "a/../../victim", "victim/../../victim", "./../victim", "..\\victim", "selection",
+		" ..", ".. ", "\t..", " .. "} // (the last four: ".." padded with white space - ordinary names unless somebody trims them)
 	if *edges != "" {
 		// the enumerated cases of Paths.tla (field "offer"), spelled with the same segment texts as the transfer-level driver
 		rows, err := loadRows[pathRow](*edges)
